@@ -9,13 +9,13 @@ fn run_thorough() -> bool {
     std::env::args().any(|a| a == "thorough")
 }
 
-fn long_history(kind: usize, delta: f64, backlog: usize, len: usize) -> (u64, Option<(String, String)>) {
-    let mut st = td::TSt { d: td::Dg::new(kind, delta, backlog), agg: td::Agg::default() };
+fn long_history(kind: usize, delta: f64, backlog: usize, len: usize, wscale: f64) -> (u64, Option<(String, String)>) {
+    let mut st = td::TSt { d: td::Dg::new(kind, delta, backlog), agg: td::Agg::default(), wscale };
     let ws = [1.0, 0.5, 3.0, 1e-3, 250.0, 0.0];
     let mut cmp = 0u64;
     for i in 0..len {
         let v = (((i as u64 * 7919) % 10007) as f64 - 5000.0) * 0.37;
-        let w = ws[i % 6];
+        let w = ws[i % 6] * wscale;
         let r = mccore::panics::catch(|| {
             st.d.insert_weighted(v, w);
             st.agg.add(v, w);
@@ -47,23 +47,28 @@ fn main() {
             }
         }
     }
-    let res = par_map(&jobs, n_threads(), |&(k, d, b)| td::tree(k, d, b, depth, 16, 0));
+    // the same alphabet with every weight multiplied by 2^-900 / 2^900, one level shallower ("weights across many
+    // orders of magnitude": legal positive weights far below f64::EPSILON and far above 2^53)
+    let jobs: Vec<(usize, f64, usize, f64, usize)> = jobs.iter().map(|&(k, d, b)| (k, d, b, 1.0, depth))
+        .chain(td::wscales().iter().flat_map(|&ws| jobs.iter().map(move |&(k, d, b)| (k, d, b, ws, depth - 1)))).collect();
+    let res = par_map(&jobs, n_threads(), |&(k, d, b, ws, dep)| td::tree_scaled(k, d, b, dep, 16, 0, ws));
     let (mut nodes, mut evals) = (0u64, 0u64);
-    for ((k, d, b), out) in jobs.iter().zip(res) {
+    for ((k, d, b, ws, _), out) in jobs.iter().zip(res) {
         nodes += out.nodes;
         evals += out.evals;
         for (sig, msg, hist) in out.viols {
-            run.violation(Viol { property: "C16".into(), signature: format!("tdigest {}", sig), message: format!("{}(delta={}) backlog={}: {}", td::KIND_NAMES[*k], d, b, msg),
-                replay: json!({"structure": "TDigest", "scale_function": td::KIND_NAMES[*k], "delta": d, "max_backlog_size": b, "history": hist.iter().map(|&o| td::op_name(o)).collect::<Vec<_>>()}) });
+            run.violation(Viol { property: "C16".into(), signature: format!("tdigest {}", sig), message: format!("{}(delta={}) backlog={} weights x{:e}: {}", td::KIND_NAMES[*k], d, b, ws, msg),
+                replay: json!({"structure": "TDigest", "scale_function": td::KIND_NAMES[*k], "delta": d, "max_backlog_size": b, "every_weight_multiplied_by": ws, "history": hist.iter().map(|&o| td::op_name(o)).collect::<Vec<_>>()}) });
         }
     }
     // long deterministic weighted histories (accumulation accuracy, many centroids, interleaved reads)
-    let ljobs: Vec<(usize, f64, usize)> = (0..4).flat_map(|k| [(k, 20.0, 7usize), (k, 300.0, 0), (k, 3.0, 100)]).collect();
-    let lres = par_map(&ljobs, n_threads(), |&(k, d, b)| long_history(k, d, b, if run_thorough() { 60_000 } else { 8_000 }));
-    for ((k, d, b), (n, bad)) in ljobs.iter().zip(lres) {
+    let sc = td::wscales();
+    let ljobs: Vec<(usize, f64, usize, f64)> = (0..4).flat_map(|k| [(k, 20.0, 7usize, 1.0), (k, 300.0, 0, 1.0), (k, 3.0, 100, 1.0), (k, 20.0, 7, sc[0]), (k, 300.0, 0, sc[1])]).collect();
+    let lres = par_map(&ljobs, n_threads(), |&(k, d, b, ws)| long_history(k, d, b, if run_thorough() { 60_000 } else { 8_000 }, ws));
+    for ((k, d, b, ws), (n, bad)) in ljobs.iter().zip(lres) {
         nodes += n;
         if let Some((sig, msg)) = bad {
-            run.violation(Viol { property: "C16".into(), signature: format!("tdigest long history {}", sig), message: format!("{}(delta={}) backlog={}: {}", td::KIND_NAMES[*k], d, b, msg), replay: json!({"structure": "TDigest", "scale_function": td::KIND_NAMES[*k], "delta": d, "max_backlog_size": b, "history": "i-th op: insert_weighted(v_i, w_i), v_i = ((i*7919)%10007 - 5000)*0.37, w_i = [1, 0.5, 3, 1e-3, 250, 0][i%6]; read every 113 ops; zero weights skipped by the library"}) });
+            run.violation(Viol { property: "C16".into(), signature: format!("tdigest long history {}", sig), message: format!("{}(delta={}) backlog={} weights x{:e}: {}", td::KIND_NAMES[*k], d, b, ws, msg), replay: json!({"structure": "TDigest", "scale_function": td::KIND_NAMES[*k], "delta": d, "max_backlog_size": b, "every_weight_multiplied_by": ws, "history": "i-th op: insert_weighted(v_i, w_i), v_i = ((i*7919)%10007 - 5000)*0.37, w_i = [1, 0.5, 3, 1e-3, 250, 0][i%6]; read every 113 ops; zero weights skipped by the library"}) });
         }
     }
     run.ev.set("states", json!(nodes));
@@ -74,6 +79,6 @@ fn main() {
     run.ev.set("depth", json!(depth));
     run.ev.set("exhaustive", json!(true));
     run.ev.set("samples", json!([{"config": "K2(delta=1.1) backlog=1", "history": ["insert_weighted(2.5, 1000000.0)", "insert(-3.0)", "quantile(0.5)", "insert_weighted(1000000000.0, 1e-6)", "insert_weighted(0.0, 0.0)"], "checked": "count/sum/mean vs Kahan sums, exact min/max, is_empty, zero-weight insert leaves 16 observations bit-identical"}]));
-    run.ev.set("rule", json!("every operation sequence up to the depth over 5 unit inserts, 8 weighted inserts (weights 0 .. 1e6), quantile read, n_centroids, clear; 4 scale functions x delta in {1.1,2,5,100} x backlog in {0,1,3}; oracle evaluated on a clone at every node"));
+    run.ev.set("rule", json!("every operation sequence up to the depth over 5 unit inserts, 8 weighted inserts (weights 0 .. 1e6), quantile read, n_centroids, clear; 4 scale functions x delta in {1.1,2,5,100} x backlog in {0,1,3}; oracle evaluated on a clone at every node; the same trees one level shallower with every weight multiplied by 2^-900 and 2^900"));
     run.finish();
 }
